@@ -3,8 +3,10 @@ import Supv.Props.C14
 /-!
 # C04 — Start requests only go to eligible instances with spare load
 
-Model: `Supv.Cmd` (`process_job` → `possible_identifiers` → `get_supvisors_instance` → `is_loading_valid`), validated in lock-step
-with the real Starter.  The cap is read from the source on every run (`Supv.Gen.loadingValidCmps`).
+Model: `Supv.Cmd` (`process_job` → `possible_identifiers` → `get_supvisors_instance` → `is_loading_valid`; for the
+non-distributed applications `before` → `distribute_to_single_instance` / `distribute_to_single_node` with the application's
+`possible_identifiers` / `possible_node_identifiers`), validated in lock-step with the real Starter.  The cap is read from the
+source on every run (`Supv.Gen.loadingValidCmps`).
 -/
 
 namespace Supv.Props.C04
@@ -54,6 +56,223 @@ theorem C04_no_resource (w : W) (strat : Strategy) (p : Nat) (req : List (Nat ×
   · rw [h]; simp
   · exact h
 
+/-! ## Non-distributed applications: the application's rule replaces the program's -/
+
+/-- **C04 (who may host a whole application).**  `ApplicationStatus.possible_identifiers` is exactly: permitted by the
+    application's identifiers rule, and EVERY program of the application known and enabled there. -/
+theorem C04_app_possible_identifiers (w : W) (a i : Nat) :
+    i ∈ appPossibleIdentifiers w a ↔
+      appProcs w a ≠ [] ∧ i ∈ appRuleIdentifiers w a ∧ ∀ p ∈ appProcs w a, enabledOn w p i = true := by
+  unfold appPossibleIdentifiers
+  simp only
+  split
+  · rename_i he
+    have : appProcs w a = [] := by simpa using he
+    simp [this]
+  · rename_i hne
+    have : appProcs w a ≠ [] := by simpa using hne
+    simp [List.mem_filter, List.all_eq_true, this]
+
+/-- **C04 (which instances a SINGLE_NODE application may use).**  `possible_node_identifiers` is exactly: permitted by the
+    application's rule, knowing (enabled) at least one program of the application, on a node where every program of the
+    application is known and enabled by SOME instance the rule permits — not necessarily this one. -/
+theorem C04_app_possible_node_identifiers (w : W) (a i : Nat) :
+    i ∈ appPossibleNodeIdentifiers w a ↔
+      i ∈ appRuleIdentifiers w a
+      ∧ (∀ p ∈ appProcs w a, ∃ x ∈ appRuleIdentifiers w a, w.node.getD x 0 = w.node.getD i 0 ∧ enabledOn w p x = true)
+      ∧ ∃ p ∈ appProcs w a, enabledOn w p i = true := by
+  unfold appPossibleNodeIdentifiers
+  simp only [List.mem_filter, Bool.and_eq_true, List.all_eq_true, List.any_eq_true, decide_eq_true_eq]
+  constructor
+  · rintro ⟨h1, h2, h3⟩
+    refine ⟨h1, ?_, h3⟩
+    intro p hp
+    obtain ⟨x, ⟨hx1, hx2⟩, hx3⟩ := h2 p hp
+    exact ⟨x, hx1, hx2, hx3⟩
+  · rintro ⟨h1, h2, h3⟩
+    refine ⟨h1, ?_, h3⟩
+    intro p hp
+    obtain ⟨x, hx1, hx2, hx3⟩ := h2 p hp
+    exact ⟨x, ⟨hx1, hx2⟩, hx3⟩
+
+/-- **C04 (SINGLE_INSTANCE: every target is eligible when the application begins).**  Every target decided by
+    `distribute_to_single_instance` for a program of the application is seen RUNNING, knows the program and has it enabled, is
+    permitted by the APPLICATION's rule, and its node stays at or below 100 with the whole start sequence (hence with the
+    program alone). -/
+theorem C04_single_instance_target_eligible (w : W) (j j' : AppJobs) (h : distributeSingleInstance w j = .ok j')
+    (hnone : ∀ g ∈ j.planned, ∀ c ∈ g.2, c.target = none)
+    (g : Nat × List Command) (hg : g ∈ j'.planned) (c : Command) (hc : c ∈ g.2) (i : Nat) (ht : c.target = some i)
+    (hp : c.proc ∈ appProcs w j.app) :
+    w.instRunning.getD i false = true ∧ enabledOn w c.proc i = true ∧ i ∈ appRuleIdentifiers w j.app
+    ∧ nodeLoading w (jobLoadRequests w j) i + appStartLoad w j.app ≤ 100 := by
+  rcases Supv.Props.C14.C14_single_instance_one_target w j j' h with ⟨_, rfl⟩ | ⟨i0, hi0, _, hall, _⟩
+  · rw [hnone g hg c hc] at ht; cases ht
+  · have := hall g hg c hc
+    rw [ht] at this
+    cases this
+    obtain ⟨h1, h2, h3⟩ := Supv.Props.C14.C14_single_instance_carries w j i hi0
+    obtain ⟨_, hr, hen⟩ := (C04_app_possible_identifiers w j.app i).mp h1
+    exact ⟨h2, hen _ hp, hr, h3⟩
+
+def info0 (dis : Bool) : Info := { state := .stopped, expected := true, ltime := 0, etime := 0, nowm := 0, disabled := dis }
+
+/-- two RUNNING instances on one node; a SINGLE_NODE application (CONFIG) of two programs; program 1 is DISABLED on instance 0 -/
+def disW : W :=
+  { ninst := 2, me := 0, node := [0, 0], instRunning := [true, true], counter := [0, 0],
+    pcfg := [{ app := 0, startSeq := 1, required := false, waitExit := false, load := 10, sfail := .cont, idents := none, startsecs := 1 },
+             { app := 0, startSeq := 1, required := false, waitExit := false, load := 10, sfail := .cont, idents := none, startsecs := 1 }],
+    acfg := [{ startSeq := 1, strategy := .config, distribution := .singleNode }],
+    procs := [{ infos := [(0, info0 false), (1, info0 false)], state := .stopped },
+              { infos := [(0, info0 true), (1, info0 false)], state := .stopped }] }
+def disJ : AppJobs := { app := 0, planned := startPlan disW 0 .config, strategy := .config }
+
+/-- **C04 (SINGLE_NODE: every target knows the program and has it enabled).**  HOLDS in full since /repo fix (the instance is
+    chosen among the selected instances that know and enable THIS program: `get_applicable_identifiers`); before it the node
+    qualified through one instance and CONFIG sent the program to another one where it was disabled or unknown (TypeError). -/
+theorem C04_single_node_target_enabled (w : W) (j j' : AppJobs) (h : distributeSingleNode w j = .ok j')
+    (hnone : ∀ g ∈ j.planned, ∀ c ∈ g.2, c.target = none)
+    (g : Nat × List Command) (hg : g ∈ j'.planned) (c : Command) (hc : c ∈ g.2) (i : Nat) (ht : c.target = some i)
+    (hp : c.proc ∈ appProcs w j.app) :
+    w.instRunning.getD i false = true ∧ enabledOn w c.proc i = true ∧ i ∈ appRuleIdentifiers w j.app
+    ∧ nodeLoading w (jobLoadRequests w j) i + (w.pcfg.getD c.proc default).load ≤ 100 := by
+  obtain ⟨_, hnil, hsome, _⟩ := Supv.Props.C14.C14_single_node_one_node w j j' h
+  by_cases hne : singleNodeIds w j = []
+  · have hpl := hnil hne
+    rw [hpl] at hg
+    rw [hnone g hg c hc] at ht; cases ht
+  · rcases hsome hne g hg c hc with ⟨g0, hg0, hc0⟩ | ⟨k, hk, hkt, hrun, hen, hfit⟩
+    · rw [hnone g0 hg0 c hc0] at ht; cases ht
+    · rw [ht] at hkt; cases hkt
+      have hposs := (Supv.Props.C14.C14_single_node_ids w j i hk).1
+      exact ⟨hrun, hen, ((C04_app_possible_node_identifiers w j.app i).mp hposs).1, hfit⟩
+
+/-- on the former witness (program 1 disabled on instance 0) the program now goes to instance 1 -/
+example : (match distributeSingleNode disW disJ with
+           | .ok j' => j'.planned.map (fun g => g.2.map (fun c => (c.proc, c.target)))
+           | .err _ => []) = [[(0, some 0), (1, some 1)]] := by decide +kernel
+
+/-- as `disW`, but instance 0 does not KNOW program 1 -/
+def unkW : W := { disW with procs := [{ infos := [(0, info0 false), (1, info0 false)], state := .stopped },
+                                      { infos := [(1, info0 false)], state := .stopped }] }
+
+/-- **C04 (SINGLE_NODE never raises).**  HOLDS in full since the same fix: `distribute_to_single_node` returns normally for EVERY
+    world and every job - no `TypeError` (`update_identifier` of an instance that does not know the program), no `KeyError`
+    (`update_identifier(None)`): a program without applicable instance is left without target and fails cleanly with
+    "No resource available" when its turn comes. -/
+theorem C04_single_node_no_exception (w : W) (j : AppJobs) : ∃ j', distributeSingleNode w j = .ok j' := by
+  unfold distributeSingleNode
+  simp only
+  split
+  · exact ⟨_, rfl⟩
+  · apply mapPlanned_total
+    intro g _ c _
+    unfold nodeCommand
+    split
+    · rename_i i hi
+      obtain ⟨_, hmem, _, _⟩ := Supv.Props.C14.C14_choice_valid w _ _ _ _ i hi
+      have hen : enabledOn w c.proc i = true := (List.mem_filter.mp hmem).2
+      apply updateIdentifier_known
+      unfold enabledOn at hen
+      cases hg : getInfo (w.procs.getD c.proc {}).infos i with
+      | none => rw [hg] at hen; cases hen
+      | some v => rfl
+    · exact ⟨c, rfl⟩
+
+/-- the two former witnesses of an exception (instance 0 does not know program 1; a program too heavy for the node) -/
+example : (match distributeSingleNode unkW disJ with
+           | .ok j' => j'.planned.map (fun g => g.2.map (fun c => (c.proc, c.target)))
+           | .err _ => []) = [[(0, some 0), (1, some 1)]] := by decide +kernel
+
+/-! ## A single process of a non-distributed application (`start_process`) -/
+
+/-- the full-strength clause: the instance given by `distribute_to_single_instance` can take the load of every program it is given -/
+def C04_single_process_load_statement : Prop :=
+  ∀ (w : W) (j j' : AppJobs), distributeSingleInstance w j = .ok j' → (∀ g ∈ j.planned, ∀ c ∈ g.2, c.target = none) →
+    ∀ g ∈ j'.planned, ∀ c ∈ g.2, ∀ i, c.target = some i → c.proc ∈ appProcs w j.app →
+      nodeLoading w (jobLoadRequests w j) i + (w.pcfg.getD c.proc default).load ≤ 100
+
+def rInfo : Info := { state := .running, expected := true, ltime := 0, etime := 0, nowm := 0, disabled := false }
+
+/-- one instance already loaded at 80 by application 0; application 1 (non-distributed) has one program, of start_sequence 0 and
+    load 50: its start sequence weighs 0 -/
+def seq0W (d : Dist) : W :=
+  { ninst := 1, me := 0, node := [0], instRunning := [true], counter := [0],
+    pcfg := [{ app := 0, startSeq := 1, required := false, waitExit := false, load := 80, sfail := .cont, idents := none, startsecs := 1 },
+             { app := 1, startSeq := 0, required := false, waitExit := false, load := 50, sfail := .cont, idents := none, startsecs := 1 }],
+    acfg := [{ startSeq := 1, strategy := .config }, { startSeq := 0, strategy := .config, distribution := d }],
+    procs := [{ infos := [(0, rInfo)], running := [0], state := .running }, { infos := [(0, info0 false)], state := .stopped }] }
+/-- the job `Starter.start_process` creates for that program -/
+def seq0J : AppJobs := { app := 1, planned := [(0, [{ proc := 1, strategy := .config, ignoreWaitExit := true }])], strategy := .config }
+
+theorem C04_single_process_load_witness :
+    distributeSingleInstance (seq0W .singleInstance) seq0J
+      = .ok { seq0J with identifiers := [0], planned := [(0, [{ proc := 1, strategy := .config, ignoreWaitExit := true, target := some 0, waitTicks := 3 }])] } := by
+  decide +kernel
+
+/-- Known finding `C04:single-process-application-load-checked`: the instance is checked against the load of the application's start
+    sequence (0: the program has start_sequence 0), the program (50) is sent to a node already at 80. -/
+theorem C04_single_process_load_refuted : ¬ C04_single_process_load_statement := by
+  intro h
+  have := h (seq0W .singleInstance) seq0J _ C04_single_process_load_witness (by decide)
+    (0, [{ proc := 1, strategy := .config, ignoreWaitExit := true, target := some 0, waitTicks := 3 }]) (by simp)
+    { proc := 1, strategy := .config, ignoreWaitExit := true, target := some 0, waitTicks := 3 } (by simp) 0 rfl (by decide)
+  revert this
+  decide +kernel
+
+/-- **C04 (partial).**  For a program of the application's start sequence (positive start_sequence) the instance can take its load. -/
+theorem C04_single_process_load_partial (w : W) (j j' : AppJobs) (h : distributeSingleInstance w j = .ok j')
+    (hnone : ∀ g ∈ j.planned, ∀ c ∈ g.2, c.target = none)
+    (g : Nat × List Command) (hg : g ∈ j'.planned) (c : Command) (hc : c ∈ g.2) (i : Nat) (ht : c.target = some i)
+    (hp : c.proc ∈ appProcs w j.app) (hs : 0 < (w.pcfg.getD c.proc default).startSeq) :
+    nodeLoading w (jobLoadRequests w j) i + (w.pcfg.getD c.proc default).load ≤ 100 := by
+  have h1 := (C04_single_instance_target_eligible w j j' h hnone g hg c hc i ht hp).2.2.2
+  have h2 := load_le_appStartLoad w j.app c.proc hp hs
+  omega
+
+/-- in a SINGLE_NODE application the same program used to make `distribute_to_single_node` raise `KeyError`
+    (`update_identifier(None)`); it is now left without target (see `C04_single_node_no_exception`) -/
+example : distributeSingleNode (seq0W .singleNode) seq0J = .ok { seq0J with identifiers := [0] } := by decide +kernel
+
+/-! ## The target used when the request is sent -/
+
+/-- the full-strength clause: the target `process_job` uses is seen RUNNING when the request is sent -/
+def C04_job_target_rechecked_statement : Prop :=
+  ∀ (w : W) (app : Nat) (cur : List Command) (c : Command) (i : Nat),
+    (jobTarget w app cur c).target = some i → w.instRunning.getD i false = true
+
+/-- Known finding `C04:not-rechecked`: for a non-distributed application the target decided when the job was picked up is used
+    as it is; here instance 1 is no longer RUNNING. -/
+theorem C04_job_target_rechecked_refuted : ¬ C04_job_target_rechecked_statement := by
+  intro h
+  have := h { disW with instRunning := [true, false] } 0 [] { proc := 0, strategy := .config, target := some 1 } 1 (by decide)
+  revert this
+  decide
+
+/-- **C04 (no re-check for a non-distributed application).**  What the code does: the command is used unchanged. -/
+theorem C04_job_target_restricted (w : W) (app : Nat) (cur : List Command) (c : Command)
+    (h : (w.acfg.getD app default).distribution ≠ .all) : jobTarget w app cur c = c := by
+  unfold jobTarget
+  rw [if_neg h]
+
+/-- **C04 (partial: distributed applications).**  For an ALL_INSTANCES application the target is chosen when the request is sent:
+    it is seen RUNNING, knows the program and has it enabled, is permitted by the program's rule, and its node stays at or
+    below 100 with the program's load and the job's pending requests. -/
+theorem C04_job_target_rechecked_partial (w : W) (app : Nat) (cur : List Command) (c : Command) (i : Nat)
+    (hd : (w.acfg.getD app default).distribution = .all) (hn : c.target = none)
+    (h : (jobTarget w app cur c).target = some i) :
+    w.instRunning.getD i false = true
+    ∧ (∃ v, getInfo (w.procs.getD c.proc {}).infos i = some v ∧ v.disabled = false)
+    ∧ (match (w.pcfg.getD c.proc default).idents with | none => i < w.ninst | some l => i ∈ l)
+    ∧ nodeLoad w (w.node.getD i 0) + nodeReq w (jobLoadRequests w { app := app, planned := [], current := cur }) (w.node.getD i 0)
+        + (w.pcfg.getD c.proc default).load ≤ 100 := by
+  unfold jobTarget at h
+  simp only [hd, if_true] at h
+  split at h
+  · rename_i k hk
+    simp at h; subst h
+    exact C04_target_eligible w c.strategy c.proc _ k hk
+  · rw [hn] at h; cases h
+
 /-- the cap of the current source: a single `<=` against 100 in `is_loading_valid` (regenerated from the AST on every run) -/
 theorem C04_cap_source : Supv.Gen.loadingValidCmps = [(["LtE"], [100])] := by decide
 
@@ -62,5 +281,13 @@ theorem C04_cap_source : Supv.Gen.loadingValidCmps = [(["LtE"], [100])] := by de
 theorem C04_node_members_nodup (w : W) (nd : Nat) :
     ((List.range w.ninst).filter (fun i => w.node.getD i 0 = nd)).Nodup :=
   List.Pairwise.filter _ List.nodup_range
+
+-- non-vacuity: the hypotheses of `C04_single_node_no_exception_partial` and `C04_single_node_target_enabled_partial` hold on the
+-- world of `Supv.Props.C14.snW` (two instances of one node that both know and enable both programs)
+example : (∀ i ∈ appRuleIdentifiers Supv.Props.C14.snW 0, i < 2)
+    ∧ (∀ g ∈ Supv.Props.C14.snJ.planned, ∀ c ∈ g.2, c.proc ∈ appProcs Supv.Props.C14.snW 0 ∧ 0 < (Supv.Props.C14.snW.pcfg.getD c.proc default).startSeq)
+    ∧ (∀ i ∈ singleNodeIds Supv.Props.C14.snW Supv.Props.C14.snJ, ∀ p ∈ appProcs Supv.Props.C14.snW 0, enabledOn Supv.Props.C14.snW p i = true) := by
+  decide +kernel
+example : appPossibleIdentifiers disW 0 = [1] ∧ appPossibleNodeIdentifiers disW 0 = [0, 1] ∧ appPossibleNodeIdentifiers unkW 0 = [0, 1] := by decide
 
 end Supv.Props.C04
